@@ -244,7 +244,11 @@ struct Mon {
 			const HookEv* e = peek();
 			if (!e || e->step != 0 || e->method != method || e->cls != cls) {
 				std::string got = e ? ev_str(*e) : std::string("nothing");
-				if (j == 0) { structural(cx.prop, cx.clause, std::string("expected ") + METHOD_NAMES[method] + "(" + sid(cls) + "), got " + got); return false; }
+				if (j == 0) {
+					if (e && e->step == 0 && e->method == method && e->cls != cls)
+						viol("C14", "callbacks-reach-the-addressed-state", std::string(METHOD_NAMES[method]) + " addressed to state " + sid(cls) + " ran on the class declared at position " + sid(e->cls));
+					structural(cx.prop, cx.clause, std::string("expected ") + METHOD_NAMES[method] + "(" + sid(cls) + "), got " + got); return false;
+				}
 				viol("C15", "each-once", std::string(METHOD_NAMES[method]) + "(" + sid(cls) + ") reached only " + S(j) + " of the " + S(k + 1) + " classes (injections + state)");
 				return true;
 			}
@@ -276,18 +280,30 @@ struct Mon {
 		}
 	}
 
+	// a request made from inside a guard was discarded without a guard round although it differs (origin or payload) from
+	// the transition accepted so far: the machine goes on to show the superseded request's origin/payload
+	void dropped_request(const Req& R, const Req& survivor) {
+		viol("C03", "redirect-evaluated-by-fresh-round", "request " + req_str(R) + " made from inside a guard was neither evaluated by a fresh round of guards nor cancelled; the earlier " + req_str(survivor) + " was applied in its place");
+		const bool pdiff = R.has_payload != survivor.has_payload || (R.has_payload && memcmp(R.payload, survivor.payload, g_info->payload_vsize) != 0);
+		if (pdiff) viol("C07", "payload-of-latest-surviving-request", "the most recent uncancelled request " + req_str(R) + " was dropped: enter()/previousTransition() show the payload of the superseded request " + req_str(survivor));
+		if (R.origin != survivor.origin || pdiff) viol("C11", "history-origin", "the most recent uncancelled request " + req_str(R) + " was dropped: previousTransition() describes the superseded request " + req_str(survivor));
+	}
+
 	void processing() {
-		Req survivor; unsigned rounds = 0; bool ambiguous = false; Req alt;
+		Req survivor; unsigned rounds = 0; bool ambiguous = false; Req alt; bool any_cancel = false;
 		while (T.slot.has && rounds < L && !stop) {
 			Req R = T.slot;
 			const bool vis_exit = defines(T.open, M_EXIT_GUARD), vis_entry = defines(R.dest, M_ENTRY_GUARD);
 			// observed de-duplication of the unchanged engine: a re-request of the destination already accepted from an
 			// external payload-free request may be absorbed without a round. Nothing else may skip its guards.
 			const bool absorbable = survivor.has && survivor.dest == R.dest && survivor.origin == SUT_INVALID && !survivor.has_payload;
-			if (absorbable) {
+			if (survivor.has && survivor.dest == R.dest) {
 				const bool round_starts = vis_exit ? peek_is(M_EXIT_GUARD, T.open) : vis_entry ? peek_is(M_ENTRY_GUARD, R.dest) : false;
-				if (!vis_exit && !vis_entry) { ambiguous = true; alt = survivor; }
-				else if (!round_starts) { T.slot.clear(); ++rounds; g_stats.hit("duplicate_requests_absorbed"); continue; }
+				if (!vis_exit && !vis_entry) { if (absorbable) { ambiguous = true; alt = survivor; } }
+				else if (!round_starts) {
+					if (!absorbable) dropped_request(R, survivor);
+					T.slot.clear(); ++rounds; g_stats.hit("duplicate_requests_absorbed"); continue;
+				}
 			}
 			T.slot.clear(); ++rounds;
 			Ctx cx; cx.pending = &R; cx.current = &survivor; cx.expect_active = T.open; cx.prop = "C03"; cx.clause = "guards-consulted";
@@ -296,7 +312,7 @@ struct Mon {
 			if (!cx.cancelled) { if (!delivery(M_ENTRY_GUARD, R.dest, cx)) return; }
 			else g_stats.hit("exit_guard_vetoes");
 			if (!cx.cancelled) survivor = R;
-			else if (rounds >= 2 && survivor.has) mark_nontrivial("veto_after_survivor");
+			else { any_cancel = true; if (rounds >= 2 && survivor.has) mark_nontrivial("veto_after_survivor"); }
 		}
 		if (T.slot.has && rounds >= L) mark_nontrivial("substitution_limit_hits");
 		if (stop) return;
@@ -306,7 +322,15 @@ struct Mon {
 			else structural("C03", "guards-consulted", "unexpected guard " + ev_str(*e) + " although no request is outstanding");
 			return;
 		}
+		const size_t before = hi;
 		apply_survivor(survivor);
+		if (stop && hi == before) {
+			// the lifecycle callbacks that followed are not those of the last surviving request
+			const HookEv* e = peek();
+			if (any_cancel) viol("C03", "fallback-to-last-survivor", "after a vetoed round the machine did not fall back to the last request that survived its guards " + req_str(survivor) + (e ? ": " + ev_str(*e) + " ran" : ": nothing ran"));
+			if (e && (e->method == M_ENTER || e->method == M_EXIT || e->method == M_REENTER) && survivor.has)
+				viol("C14", "transition-activates-requested-state", "the surviving request names state " + S(survivor.dest) + " but " + ev_str(*e) + " ran");
+		}
 		T.prev = survivor; T.prev_alt_ok = ambiguous; if (ambiguous) T.prev_alt = alt;
 	}
 
@@ -317,8 +341,10 @@ struct Mon {
 		const bool fail_out = cycle_fail_call || (a >= 0 && bit_get(T.mayF, static_cast<unsigned>(a)));
 		const bool succ_out = cycle_succ_call || (a >= 0 && bit_get(T.mayS, static_cast<unsigned>(a)));
 		const HookEv* nx = peek();
+		const bool head_must_fire = !T.mirror.empty() && a >= 0 && T.mirror[0].origin == a && bit_get(T.mustS, static_cast<unsigned>(a)) && !cycle_fail_call && !bit_get(T.mayF, static_cast<unsigned>(a));
 		if (nx && nx->step == 0 && (nx->method == M_PLAN_FAILED || nx->method == M_PLAN_SUCCEEDED) && nx->cls == SUT_INVALID) {
 			const bool failed = nx->method == M_PLAN_FAILED;
+			if (head_must_fire) viol("C08", "head-task-fires", std::string("the first task's origin is active and reported success in this cycle without failure reports, but ") + METHOD_NAMES[nx->method] + "() was delivered and the task did not fire");
 			if (failed && !fail_out) viol("C09", "planFailed-needs-failure", "planFailed() delivered in a cycle without any outstanding task failure");
 			if (!failed && !succ_out) viol("C09", "planSucceeded-needs-success", "planSucceeded() delivered in a cycle without any outstanding success");
 			if (!failed && !T.mirror.empty()) viol("C09", "planSucceeded-needs-empty-plan", "planSucceeded() delivered while " + S(static_cast<int>(T.mirror.size())) + " task(s) remain");
@@ -345,7 +371,7 @@ struct Mon {
 			if (j >= 0) { viol("C08", "unfired-tasks-stay-in-order", "after the plan step the plan is not the previous plan minus the fired tasks, order preserved"); T.mirror = P1; return; }
 			fired.assign(rev.rbegin(), rev.rend());
 		}
-		const bool head_should_fire = !P0.empty() && a >= 0 && P0[0].origin == a && bit_get(T.mustS, static_cast<unsigned>(a)) && !cycle_fail_call && !bit_get(T.mayF, static_cast<unsigned>(a));
+		const bool head_should_fire = head_must_fire;
 		if (!fired.empty()) {
 			size_t prefix = 0; while (prefix < P0.size() && P0[prefix].origin == a) ++prefix;
 			for (size_t f = 0; f < fired.size(); ++f) {
@@ -411,10 +437,13 @@ struct Mon {
 				Req R = T.slot;
 				const bool vis_root = defines(SUT_INVALID, M_ENTRY_GUARD), vis_entry = defines(R.dest, M_ENTRY_GUARD);
 				const bool absorbable = survivor.has && survivor.dest == R.dest && survivor.origin == SUT_INVALID && !survivor.has_payload;
-				if (absorbable) {
+				if (survivor.has && survivor.dest == R.dest) {
 					const bool round_starts = vis_root ? peek_is(M_ENTRY_GUARD, SUT_INVALID) : vis_entry ? peek_is(M_ENTRY_GUARD, R.dest) : false;
-					if (!vis_root && !vis_entry) { ambiguous = true; alt = survivor; }
-					else if (!round_starts) { T.slot.clear(); ++rounds; g_stats.hit("duplicate_requests_absorbed"); continue; }
+					if (!vis_root && !vis_entry) { if (absorbable) { ambiguous = true; alt = survivor; } }
+					else if (!round_starts) {
+						if (!absorbable) dropped_request(R, survivor);
+						T.slot.clear(); ++rounds; g_stats.hit("duplicate_requests_absorbed"); continue;
+					}
 				}
 				T.slot.clear(); ++rounds;
 				Ctx c2; c2.pending = &R; c2.current = &survivor; c2.expect_active = -1; c2.prop = "C04"; c2.clause = "activation-redirect-rounds";
@@ -653,7 +682,7 @@ struct Mon {
 	bool broken = false;
 
 	void check_save() {
-		if (!x.canary_ok) viol("C12", "save-stays-in-buffer", "save() wrote outside the SerialBuffer object");
+		if (!x.canary_ok) { viol("C12", "save-stays-in-buffer", "save() wrote outside the SerialBuffer object"); viol("C18", "no-out-of-bounds-access", "save() wrote outside the SerialBuffer object (canary bytes next to it changed)"); }
 		const unsigned bits = g_info->serial_bits;
 		for (unsigned b = bits; b < 8u * g_info->serial_bytes; ++b) if (x.saved_bytes[b >> 3] & (1u << (b & 7))) { viol("C12", "save-stays-in-buffer", "save() left bit " + S(static_cast<int>(b)) + " set, beyond the declared capacity of " + S(static_cast<int>(bits)) + " bits (buffer was dirty before the call)"); break; }
 		const int act = T.active ? T.open : -1;
